@@ -27,11 +27,14 @@ def machines(tier):
                  with_reorder=False, seeds=('fresh', 'used'))
     full3 = dict(names=('x', 'y', 'z'), max_handles=3, max_ext=2, ops=('and', 'xor'),
                  seeds=('fresh', 'used', 'swapped', 'warm'))
+    # a manager with several hundred nodes (node numbers above 256) held as ballast
+    big6 = dict(names=('x', 'y', 'z', 'w', 'v', 'u'), max_handles=3, max_ext=1,
+                ops=('and', 'xor'), with_ite=False, with_foa=False, seeds=('big',))
     if tier == 'quick':
-        plan = [('full2', full2, 3), ('refs2', refs2, 5), ('ops2', ops2, 5), ('xor3', xor3, 6),
+        plan = [('big6', big6, 2), ('full2', full2, 3), ('refs2', refs2, 5), ('ops2', ops2, 5), ('xor3', xor3, 6),
                 ('sort3', sort3, 4)]
     else:
-        plan = [('full2', full2, 4), ('refs2', refs2, 6), ('ops2', ops2, 6), ('xor3', xor3, 8),
+        plan = [('big6', big6, 3), ('full2', full2, 4), ('refs2', refs2, 6), ('ops2', ops2, 6), ('xor3', xor3, 8),
                 ('full3', full3, 4), ('sort3', sort3, 5)]
     out = []
     for label, kw, depth in plan:
